@@ -6,6 +6,7 @@ import J5V.Print.Order
 import J5V.Print.Layout
 import J5V.Print.Wire
 import J5V.Print.Scalar
+import J5V.Print.Cover
 /-! Line-protocol driver for the print cluster (C05), core only.
 One op per input line, one result per output line; see /verif/harness/PROTOCOL-print.md. -/
 open J5V.Go J5V.Print
@@ -168,9 +169,23 @@ def tokenShape (text : String) : String :=
     | .eof => none
   " ".intercalate kinds
 
+/-- `cover <k> <input op …> @ <summary>`: is the summarised descriptor (arranged) in the shape the grammar
+theorem `C05_reparse` covers? `<origin> 1` or `<origin> 0 <reasons>` (evidence only, see checks/C05.py) -/
+def stepCover (toks : List String) : String :=
+  let origin := (toks.drop 1).headD "?"
+  match (toks.dropWhile (· != "@")).drop 1 with
+  | [] => "bad-op"
+  | sum =>
+    match Wire.pFile sum with
+    | none => "bad-op"
+    | some (gen, f) =>
+      if Cover.simpleFileB gen f.arranged then origin ++ " 1"
+      else origin ++ " 0 " ++ ",".intercalate (Cover.whyNot gen f.arranged)
+
 def step (line : String) : String :=
   match line.trimAscii.toString.splitOn " " with
   | "file" :: rest => stepFile rest
+  | "cover" :: rest => stepCover rest
   | ["int", v] => match v.toInt? with
     | some n =>
       let text := Scalar.formatInt n
